@@ -5,7 +5,7 @@
 From Coq Require Import List NArith.
 From GV Require Import Base.Ints Gen.Math Gen.StepSM Model.StateMachine Proofs.SMInv Proofs.SMInvStep Proofs.SMRel
   Proofs.SMTheorems Proofs.SMInvActs Proofs.SMWitness Proofs.SMOnce Proofs.SMOnceRel Proofs.SMOnceStep Proofs.SMOnceHist
-  Proofs.SMOnceSign.
+  Proofs.SMOnceSign Proofs.SMOncePH.
 Import ListNotations.
 Local Open Scope N_scope.
 
@@ -62,3 +62,46 @@ Theorem C02Once_example :
     [ORoundEntrance 1 0 true true; ORoundEntrance 1 1 true true].
 Proof. exact ex_signs. Qed.
 Print Assumptions C02Once_example.
+
+(** ** Proposals: the variants of the emission theorems of Properties/C02Inv.v
+    (OSignProposal / OSavePH / OEmitPH; a recorded proposal is re-sent at start-up) *)
+
+(** every proposed header emitted, in any reachable state: afterwards the action store holds exactly this
+    block data as the proposal of (h, r); and either it is FRESH - the event is the strategy's proposal,
+    the store had none for (h, r), the header was signed and saved (result 0) in the same event - or it is
+    the RE-SENDING at start-up (first round entrance response of a lifetime) of what the store already held *)
+Theorem C02_proposal_emitted_was_signed_and_saved_or_recorded : forall sg es e h r d,
+  let s := final_state (sm0 sg) es in
+  In (OEmitPH h r d) (snd (step s e)) ->
+  ra_ph (getra (aStore (fst (step s e))) h r) = Some d /\
+  ((e = EvProposal d /\ ra_ph (getra (aStore s) h r) = None /\ In (OSignProposal h r d) (snd (step s e)) /\
+    exists p, In (OSavePH h r 0 p) (snd (step s e))) \/
+   ((exists v, e = EvRERespVRV v) /\ run s = AwaitInit /\ ra_ph (getra (aStore s) h r) = Some d)).
+Proof. exact (fun sg es e h r d => emit_ph_step _ e h r d (Inv_final _ es (Inv_init sg))). Qed.
+Print Assumptions C02_proposal_emitted_was_signed_and_saved_or_recorded.
+
+(** at most one proposal of one block data per (height, round) is EVER emitted: any two emissions for the
+    same (h, r) in one history - restarts included - carry the same block data *)
+Theorem C02_one_proposal_data_ever : forall sg es i j oi oj h r d1 d2,
+  nth_error (run_events (sm0 sg) es) i = Some oi -> nth_error (run_events (sm0 sg) es) j = Some oj ->
+  In (OEmitPH h r d1) oi -> In (OEmitPH h r d2) oj -> d1 = d2.
+Proof. exact (fun sg es => emit_ph_one_data es _ (Inv_init sg)). Qed.
+Print Assumptions C02_one_proposal_data_ever.
+
+(** and a proposal that is not a re-sending (its event is not a round entrance response) is emitted at
+    most once per (height, round), ever *)
+Theorem C02_one_fresh_proposal_ever : forall sg es i j oi oj h r d1 d2 ei ej,
+  nth_error (run_events (sm0 sg) es) i = Some oi -> nth_error (run_events (sm0 sg) es) j = Some oj ->
+  nth_error es i = Some ei -> nth_error es j = Some ej ->
+  (forall v, ei <> EvRERespVRV v) -> (forall v, ej <> EvRERespVRV v) ->
+  In (OEmitPH h r d1) oi -> In (OEmitPH h r d2) oj -> i = j.
+Proof. exact (fun sg es => emit_ph_fresh_once es _ (Inv_init sg)). Qed.
+Print Assumptions C02_one_fresh_proposal_ever.
+
+(** non-vacuity: a proposal emitted in round (1,0) and re-sent with the same data after a restart *)
+Theorem C02Once_example_proposal :
+  filter is_emit_ph (List.concat (run_events (sm0 true) ex_ph_hist)) = [OEmitPH 1 0 [9]; OEmitPH 1 0 [9]] /\
+  filter is_emit_ph (nth 2 (run_events (sm0 true) ex_ph_hist) []) = [OEmitPH 1 0 [9]] /\
+  filter is_emit_ph (nth 5 (run_events (sm0 true) ex_ph_hist) []) = [OEmitPH 1 0 [9]].
+Proof. exact ex_ph_resend. Qed.
+Print Assumptions C02Once_example_proposal.
